@@ -752,6 +752,12 @@ class SparseProxy:
     def _matrix(self, arg1, shape=None, dtype=None, copy=False, real=_sp.csr_matrix):
         if isinstance(arg1, SymMatrix):
             return arg1
+        if (isinstance(arg1, tuple) and len(arg1) == 2 and all(isinstance(v, (int, _np.integer)) for v in arg1)
+                and dtype is not None and _np.dtype(dtype) == _np.dtype(object)):
+            # empty matrix of a given shape asked with the dtype of a symbolic array: scipy refuses dtype=object
+            if _ACTIVE[0]:
+                return SymMatrix(_np.zeros((int(arg1[0]), int(arg1[1])), dtype=object))
+            return real(arg1, dtype=float)
         if isinstance(arg1, tuple) and len(arg1) == 2 and isinstance(arg1[1], tuple):
             data, (rows, cols) = arg1
             data = _np.asarray(data)
